@@ -500,6 +500,7 @@ pub fn run(ctx: &crate::RunCtx) -> (Summary, Vec<Violation>) {
             continue;
         }
         let case = gen_case(ctx.seed, i);
+        crate::progress::begin(&|| serde_json::to_value(&case).unwrap());
         sum.cases += 1;
         *sum.ops_hist.entry(case_kind(&case).into()).or_default() += 1;
         if let Case::FrameBuf { steps, .. } | Case::Context { steps, .. } = &case {
